@@ -8,7 +8,7 @@ def check(pid, engine, cat, text, note, technique, design_ref):
     CHECKS[pid] = dict(engine=engine, cat=cat, text=text, note=note, technique=technique, design_ref=design_ref)
 
 check("C05", "dsu", "model_checking",
-      "Reachable-state closure of the real DSU for every element count up to 7 (quick) / 9 (thorough): every un/par/check/size/reset/clone/clone_from (into targets with a different history) in every reached state against a partition model, with representative stability and the floor(log2) depth bound as state invariants. The search closes, so histories of any length over <= N elements are covered; sizes beyond N only through a fixed menu of 12 directed adversarial union orders up to 2^18 (quick) / 2^20 (thorough) elements run in a child process with a 256 KiB stack, labelled non-exhaustive.",
+      "Reachable-state closure of the real DSU for every element count up to 7 (quick) / 8 (thorough): every un/par/check/size/reset/clone/clone_from (into targets with a different history) in every reached state against a partition model, with representative stability and the floor(log2) depth bound as state invariants. The search closes, so histories of any length over <= N elements are covered; sizes beyond N only through a fixed menu of 12 directed adversarial union orders up to 2^18 (quick) / 2^20 (thorough) elements run in a child process with a 256 KiB stack, labelled non-exhaustive.",
       "Trusted: the harness's partition model; the derived Debug rendering shows the complete DSU state. Bounded: element counts above N are covered only by the directed menu.",
       "explicit-state BFS to closure over the implementation's own states (parallel, full canonical keys), lockstep reference model",
       "DESIGN.md §4 C05")
